@@ -297,23 +297,18 @@ class Ctx:
         self.idem = name in R.IDEMPOTENT
         self.is_td = name == "timedelta"
         self.norm = name.startswith("socket-")
-        self.cnt = collections.Counter()     # (observed class, reference verdict) -> n
-        self.tot = collections.Counter()     # first character -> cases
-        self.live = set()                    # first characters with a non-rejected case
+        self.cnt = {}        # (observed class, reference verdict, first character) -> cases
         self.engine = "E1"
 
     def flush(self):
         acc, name = self.acc, self.name
-        for (o, e), n in self.cnt.items():
-            acc.cls("%s:%s" % (name, o), n)
+        for (o, e, c), n in self.cnt.items():
+            acc.cls("%s:%s" % (name, o if o != "exc" else "internal"), n)
             acc.clause("%s:%s" % (name, e), n)
-        for c, n in self.tot.items():
             acc.extra["fc\t%s\t%s\tT" % (name, c)] += n
-        for c in self.live:
-            acc.extra["fc\t%s\t%s\tL" % (name, c)] += 1
+            if o == "ok" or e != "reject":
+                acc.extra["fc\t%s\t%s\tL" % (name, c)] += 1
         self.cnt.clear()
-        self.tot.clear()
-        self.live.clear()
 
     def viol(self, kind, s, obs, exp):
         acc = self.acc
@@ -341,11 +336,9 @@ class Ctx:
         exp = self.ref(s)
         ek = exp[0]
         ok = obs[0]
-        self.cnt[(ok if ok != "exc" else "internal", ek)] += 1
-        c0 = s[:1]
-        self.tot[c0] += 1
-        if ok == "ok" or ek != "reject":
-            self.live.add(c0)
+        key = (ok, ek, s[:1])
+        cnt = self.cnt
+        cnt[key] = cnt.get(key, 0) + 1
         # 1. totality
         if ok == "exc":
             self.viol("internal-error", s, obs, exp)
